@@ -23,7 +23,66 @@ CHECKS = {
    "exhaustive enumeration of read-size histories (<=2 deviations at every Read index, all compositions of 16/20 bytes) against the full-read run; parallel variants under the controlled scheduler crossing short reads with scheduling deviations",
    "Every history with at most two short reads (1, half, all-but-one) at every Read index plus uniform chunkings on three sensitive marker-stream scenarios for the three sequential workflows; all 2^15 (2^19) compositions for SingleDetect(16/20); parallel workflows: the same short reads at deviation bound 0 under three policies and one short read x one scheduling deviation for W=2. Stale/zero bytes are observed directly by the stubs (markers, filler).",
    "read alphabet {all,1,half,all-but-one}; <=2 deviations; W<=2; deviation bound 1 (2 for Period in thorough)",
-   "DESIGN.md section 3 C10"),
+   "DESIGN.md section 3 C10"), "C01": ("E2-enum-refmodel", "exploration",
+   'bounded-exhaustive input enumeration (all bit strings of small lengths / whole finite domains / complete structured families) against an independent reference model',
+   'Every bit string of n=8..18 (thorough ..23) x 18 parameterisations, every 1-,2-(3-)byte string and byte patterns to 2500 bytes x byte entry points, every base pattern <=8 bits repeated to 12 boundary-rich lengths with <=1(2) flips, automatic block length for every n<=20000 and around 10^6 (10^8); compared with refmodel to 1e-8. Complete on these families; 10^3..10^8-bit contents are grammar words only.',
+   'trusted: refmodel (closed-form Q for integer/half-integer shapes), math.Erfc; overlapping P2(m=2) compared with a stated conditioning slack',
+   "DESIGN.md section 3 C01"),
+ "C02": ("E2-enum-refmodel", "exploration",
+   'bounded-exhaustive input enumeration (all bit strings of small lengths / whole finite domains / complete structured families) against an independent reference model',
+   'Runs total on every bit string n=1..18(23); runs distribution on every run-length word (prefix<=2(3), suffix<=2 letters over {1..k+2,k+9}, both first symbols) at both sides of every cut-off k=2..9(15); longest run: every n in 128..8000, every ordered pair of 8-bit block contents, a block of every longest-run value in first/middle/last block and boundary-straddling runs in the 128- and 10000-bit regimes, both symbols. Class probabilities are recomputed exactly (big-integer recurrence) and rounded to the printed precision.',
+   'trusted: refmodel; tolerance 1e-8',
+   "DESIGN.md section 3 C02"),
+ "C03": ("E2-enum-refmodel", "exploration",
+   'bounded-exhaustive input enumeration (all bit strings of small lengths / whole finite domains / complete structured families) against an independent reference model',
+   'Every bit string n=1..20(24) x {binary derivative k=3,7,15; autocorrelation d=1,2,8,16,32; cumulative sums fwd/bwd}; autocorrelation d=32 at n=33..40 over all readable-bit assignments; cumulative sums over every excursion z=1..n at n in {100,101,128,1000(,20000)}; periodic patterns with flips.',
+   'trusted: refmodel; cumulative-sums limits over the reals as the standard writes them',
+   "DESIGN.md section 3 C03"),
+ "C04": ("E2-enum-refmodel", "exploration",
+   'bounded-exhaustive input enumeration (all bit strings of small lengths / whole finite domains / complete structured families) against an independent reference model; explicit-state breadth-first search over elementary matrix operations with the rank class as invariant',
+   'Rank: every kxk GF(2) matrix k<=4(5) in six embeddings, BFS depth 2(3) over row/column operations from diag(I_r,0) for every r, all 27 class sequences; linear complexity: every m-bit block m=4..16(20), block pairs m<=8, every complexity L at m=500/1000 via unit impulses, LFSR outputs, m=5000; Maurer: every short test segment over six 7-bit letters after three initial segments. Any panic is a violation.',
+   'trusted: reference rank on 32-bit row words, Berlekamp-Massey validated against brute-force LFSR search for every block m<=12',
+   "DESIGN.md section 3 C04"),
+ "C05": ("E2-enum-refmodel", "exploration",
+   'bounded-exhaustive input enumeration (all bit strings of small lengths / whole finite domains / complete structured families) against an independent reference model',
+   "Every bit string n=2..16(20) against the naive DFT; 16(18) lengths around powers of two x constants, periodic patterns, square tones of period 2..32, fillers with <=1 flip. The implementation's (P,Q) must match the formula for some N1 in the interval obtained by moving the threshold by a relative 1e-9.",
+   'trusted: naive DFT / recursive reference FFT validated against it',
+   "DESIGN.md section 3 C05"),
+ "C06": ("E2-enum-refmodel", "exploration",
+   'exhaustive evaluation of a stated finite (a,x) lattice against 320-bit closed forms',
+   'All listed shapes (quick ~300, thorough all 10000 integers and half-integers in [0.5,5000]) x ~180 arguments each bracketing x=1, x=a, both tails and the underflow cut-off: accuracy 1e-12+1e-14a, range [0,1], exactly 1 for x<=0, monotone along the lattice. Nothing is claimed between lattice points.',
+   'trusted: math/big, math.Erfc',
+   "DESIGN.md section 3 C06"),
+ "C11": ("E2-enum-refmodel", "exploration",
+   'bounded-exhaustive input enumeration (all bit strings of small lengths / whole finite domains / complete structured families) against an independent reference model',
+   'SingleDetect on every requested length 0..4096 (+12500,125000) x 5 contents (error below 16 bytes, bytes consumed); every histogram of 2-bit patterns for 16,17,39 (thorough 16..39) bytes; skew families through P=0.01 at both sides of 320 and 10240 bits for m=4 and m=8.',
+   'trusted: refmodel.Poker; block order irrelevance is C17',
+   "DESIGN.md section 3 C11"),
+ "C12": ("E2-enum-refmodel", "exploration",
+   'whole-domain enumeration (s=1..10^6) against an exact integer predicate; exhaustive short lists and bin-count partitions against an exact-rational chi-square and 320-bit Q(9/2,.)',
+   'Threshold(s) for every s<=10^6; ThresholdQ on every ordered list of length 1..3 over a 39-value edge-seeking alphabet, every partition of 20 and 50 into <=10 bins x arrangements x orders, two families of length 1000; order independence bit-for-bit.',
+   'trusted: math/big',
+   "DESIGN.md section 3 C12"),
+ "C15": ("E2-enum-refmodel", "exploration",
+   'bounded-exhaustive input enumeration (all bit strings of small lengths / whole finite domains / complete structured families) against an independent reference model (differential between entry points, bit-identical)',
+   "Byte vs bit entry points on every 1-,2-(3-)byte string, byte patterns repeated to 16/128/1121/2500 bytes, fillers to 125000 bytes, every documented parameter; runners vs entry points with the standard's defaults incl. Pass; registry order by name and by reference semantics; Round15/Round12; ReadGroup on every file length 0..64, 125000, 125001.",
+   'bit-identical = identical float64 bit patterns',
+   "DESIGN.md section 3 C15"),
+ "C16": ("E2-enum-refmodel", "exploration",
+   'bounded-exhaustive input enumeration (all bit strings of small lengths / whole finite domains / complete structured families) against an independent reference model',
+   'The extreme family (constants, period-p patterns, single transitions incl. a=-1,0,1 mod 500, lone ones/zeros, balanced, fillers, heavy bias) at every n in 100..136, 1000, 1024, 8967..8974, 20000 and a subset at 10^6 (10^7), plus 756 biased fillers with P-values on both sides of 0.01, x every admissible entry point and the 15 runners: finite, in range, P/Q relation, Pass consistency.',
+   'family is a stated finite set',
+   "DESIGN.md section 3 C16"),
+ "C17": ("E2-enum-refmodel", "exploration",
+   'bounded-exhaustive input enumeration (all bit strings of small lengths / whole finite domains / complete structured families) against an independent reference model (differential: f(x) vs f(Tx), no expected values)',
+   'Every bit string n=16,17 (thorough ..20) x complement, reversal, every rotation, every permutation of <=4 blocks / transpositions, every tail content, for each call whose definition implies the symmetry; longer inputs at six lengths.',
+   '1e-9 where a sum is reordered, bit-identical otherwise; overlapping compared with its conditioning slack',
+   "DESIGN.md section 3 C17"),
+ "C19": ("E2-enum-refmodel", "exploration",
+   'basis-complete enumeration (every unit impulse and pure tone for each N) plus all small vectors against the naive DFT',
+   'Every unit impulse and pure tone for N=2..2^12(2^14), all +-1 vectors N<=16, all vectors over {0,1,-1,i} N<=8, fillers to 2^16(2^20), inverse(forward)=identity, constructor on every N<=8192 and around every power of two to 2^20(2^22, 2^27), refusals, wrong-length slices.',
+   'linearity extends the basis result to all inputs up to floating-point accumulation',
+   "DESIGN.md section 3 C19"),
 }
 
 NOT_YET = {
